@@ -161,6 +161,10 @@ def run(ctx) -> None:
   ctx.rule('R4', 'infeasible entries get nanmin - (positive term), assigned before the shift', 1)
   ctx.rule('R5', 'stateful warpers are not shared by list multiplication', 1)
   ctx.rule('R6', 'warp() selects its branches with exact comparisons (no isclose/allclose/rounding in branch conditions)', 8)
+  ctx.rule('R9', 'arrays walked in lock step (zip) are both functions of the whole label array: none of them is computed from a '
+           'masked subset', 0)
+  ctx.rule('R8', 'a NaN / finiteness mask that selects entries of an array is computed from the array as it is at that point '
+           '(not re-used after the array was written)', 4)
   ctx.rule('R7', 'state kept by warp() for unwarp() is assigned on every path of warp()', 1)
   mi = ctx.index.module_of_file(OW)
   # summary of helper(s): functions whose every return derives from a fresh producer applied first
@@ -204,6 +208,8 @@ def run(ctx) -> None:
   r5_sharing(ctx)
   r6_exact_branches(ctx, mi)
   r7_warp_state(ctx, mi)
+  r8_fresh_masks(ctx, mi)
+  r9_aligned_pairs(ctx, mi)
 
 
 # ----------------------------------------------------------------------- R6
@@ -238,6 +244,120 @@ def r6_exact_branches(ctx, mi) -> None:
 
 
 # ----------------------------------------------------------------------- R7
+def r9_aligned_pairs(ctx, mi) -> None:
+  n = 0
+  for ci in mi.classes.values():
+    for m in ci.methods.values():
+      if m.name not in ('warp', 'unwarp'):
+        continue
+      g = cfgmod.CFG(m.node)
+      rd = flow.ReachingDefs(g)
+
+      _REDUCE = {'sum', 'mean', 'median', 'nanmedian', 'nanmean', 'std', 'nanstd', 'min', 'max', 'nanmin', 'nanmax', 'searchsorted',
+                 'item', 'len', 'size', 'any', 'all', 'argmax', 'argmin', 'count_nonzero', 'ppf', 'float', 'int'}
+
+      def filtered(e: ast.AST, node, depth=0) -> bool:
+        """does the *array* denoted by e have the length of a boolean-mask selection `a[<mask>]` (shape-preserving flows only)?"""
+        if depth > 6 or e is None:
+          return False
+        if isinstance(e, ast.Subscript):
+          sl = e.slice
+          inner = sl.operand if isinstance(sl, ast.UnaryOp) else sl
+          if isinstance(inner, ast.Compare) or (isinstance(inner, ast.Call) and (dotted(inner.func) or '').rsplit('.', 1)[-1] in
+                                                ('isnan', 'isfinite', 'isinf', 'logical_not', 'logical_and', 'logical_or')):
+            return True
+          if isinstance(inner, ast.Name) and any(
+              d.value is not None and isinstance(d.value, (ast.Call, ast.Compare, ast.UnaryOp)) and (
+                  isinstance(d.value, ast.Compare) or (dotted(getattr(d.value, 'func', None)) or '').rsplit('.', 1)[-1] in ('isnan', 'isfinite', 'isinf')
+                  or isinstance(d.value, ast.UnaryOp)) for d in rd.at(node, inner.id) if d.node_id >= 0):
+            return True
+          if isinstance(sl, ast.Slice):
+            return filtered(e.value, node, depth + 1)
+          return False  # element / fancy index: not the same array any more
+        if isinstance(e, ast.Name):
+          for d in rd.at(node, e.id):
+            if d.node_id < 0 or d.value is None or d.kind != 'assign' or g.nodes[d.node_id] is node:
+              continue
+            dn = g.nodes[d.node_id]
+            tg = dn.ast.targets[0] if isinstance(dn.ast, ast.Assign) else None
+            if isinstance(tg, ast.Name) and filtered(d.value, dn, depth + 1):
+              return True
+            if isinstance(tg, ast.Tuple) and isinstance(dn.ast.value, ast.Call) and filtered(dn.ast.value, dn, depth + 1):
+              return True
+          return False
+        if isinstance(e, ast.BinOp):
+          return filtered(e.left, node, depth + 1) or filtered(e.right, node, depth + 1)
+        if isinstance(e, ast.UnaryOp):
+          return filtered(e.operand, node, depth + 1)
+        if isinstance(e, ast.Call):
+          name = (dotted(e.func) or '').rsplit('.', 1)[-1] if dotted(e.func) else (e.func.attr if isinstance(e.func, ast.Attribute) else '')
+          if name in _REDUCE:
+            return False
+          recv = [e.func.value] if isinstance(e.func, ast.Attribute) and not dotted(e.func.value) in ('np', 'jnp', 'stats', 'scipy.stats') else []
+          return any(filtered(a, node, depth + 1) for a in list(e.args[:1]) + recv)
+        return False
+      for node in g.nodes:
+        for c in flow.node_calls(node):
+          if dotted(c.func) == 'zip' and len(c.args) >= 2:
+            n += 1
+            fl = [filtered(a, node) for a in c.args]
+            ctx.check(len(set(fl)) == 1, 'R9', f'{ci.name}.{m.name}: `{unparse(c, 50)}`', c,
+                      'all operands cover the same entries',
+                      f'`{unparse(c, 60)}` pairs an array computed from a masked subset ({[unparse(a, 20) for a, f_ in zip(c.args, fl) if f_]}) with one '
+                      'over all entries: after the first infeasible label every rank is paired with the wrong label (order reversals below the median)',
+                      construct=f'{ci.name}.{m.name}:misaligned-zip', func=m.qualname)
+  ctx.count('lock_step_iterations', n)
+
+
+def r8_fresh_masks(ctx, mi) -> None:
+  """`m = np.isnan(a)`; `a[m] = v`; `a[~m] += s` selects with a mask of the *old* array: entries that have just been filled are
+  skipped by the second statement (the pinned code recomputes `np.isnan(a)` and therefore shifts the filled entries too)."""
+  n = 0
+  for ci in mi.classes.values():
+    for m in ci.methods.values():
+      if m.name not in ('warp', 'unwarp', '__call__'):
+        continue
+      g = cfgmod.CFG(m.node)
+      rd = flow.ReachingDefs(g)
+      masks = {}
+      for node in g.nodes:
+        if node.kind == 'stmt' and isinstance(node.ast, ast.Assign) and len(node.ast.targets) == 1 and isinstance(node.ast.targets[0], ast.Name):
+          v = node.ast.value
+          inner = v.operand if isinstance(v, ast.UnaryOp) and isinstance(v.op, ast.Invert) else v
+          if isinstance(inner, ast.Call) and (dotted(inner.func) or '').rsplit('.', 1)[-1] in ('isnan', 'isfinite', 'isinf') and inner.args \
+              and isinstance(inner.args[0], ast.Name):
+            masks[(node.ast.targets[0].id, node.id)] = inner.args[0].id
+      n += 1
+      stale = None
+      for node in g.nodes:
+        if node.kind != 'stmt' or not isinstance(node.ast, (ast.Assign, ast.AugAssign)):
+          continue
+        tgs = node.ast.targets if isinstance(node.ast, ast.Assign) else [node.ast.target]
+        for t in tgs:
+          if not (isinstance(t, ast.Subscript) and isinstance(t.value, ast.Name)):
+            continue
+          arr = t.value.id
+          for x in ast.walk(t.slice):
+            if isinstance(x, ast.Name):
+              for d in rd.at(node, x.id):
+                if (x.id, d.node_id) in masks and masks[(x.id, d.node_id)] == arr:
+                  defn = g.nodes[d.node_id]
+                  # was the array written between the definition of the mask and this use?
+                  between = [w for w in g.reachable([defn], include_starts=False) if w is not node and node in g.reachable([w], include_starts=False)
+                             and w.kind == 'stmt' and isinstance(w.ast, (ast.Assign, ast.AugAssign)) and any(
+                                 (isinstance(tt, ast.Subscript) and isinstance(tt.value, ast.Name) and tt.value.id == arr) or
+                                 (isinstance(tt, ast.Name) and tt.id == arr)
+                                 for tt in (w.ast.targets if isinstance(w.ast, ast.Assign) else [w.ast.target]))]
+                  if between:
+                    stale = stale or (node, x.id, between[0])
+      ctx.check(stale is None, 'R8', f'{ci.name}.{m.name}: masks are fresh', m.node, 'every mask indexes the array it was just computed from',
+                (f'`{unparse(stale[0].ast, 60)}` selects with `{stale[1]}`, computed before `{unparse(stale[2].ast, 50)}` changed the array: the entries '
+                 'written there are no longer covered (e.g. the imputed infeasible labels miss the shift applied to all other labels and end up above '
+                 'feasible ones)') if stale else '', construct=f'{ci.name}.{m.name}:stale-mask', func=m.qualname)
+  if n < 4:
+    raise AnalysisError(f'only {n} warp/unwarp methods examined')
+
+
 def r7_warp_state(ctx, mi) -> None:
   """State that warp() leaves for unwarp() is rewritten by *every* warp() call: an attribute assigned on some paths
   only keeps the value of an earlier call (pipelines are reused across a study), and unwarp() then undoes the wrong warp."""
